@@ -362,20 +362,26 @@ Qed.
 Lemma nodup_rot (i : id) l : NoDup (i :: l) -> NoDup (l ++ [i]).
 Proof. intro N. eapply Permutation_NoDup; [apply Permutation_cons_append|exact N]. Qed.
 
+(* the tock a scheduler uses for the asap branch, as a function of the definitions *)
+Definition stock (sid : id) : T :=
+  if N.eqb sid 0 then tk else match get D sid with Some (FNest t _ _) => tabs t | _ => tzero end.
+Lemma sched_tock_D s sid : defs s = D -> sched_tock tk s sid = stock sid.
+Proof. intro E. unfold sched_tock, stock. now rewrite E. Qed.
+
 (* the pass: [todo] still before the marker, [acc] already behind it *)
-Lemma loop_ref : forall todo f s acc s' g,
-  recur_loop tk f s 0%N = (s', g) -> g <> GFuel ->
-  deeds (get_sched s 0%N) = map deed_of todo ++ DMark :: map deed_of acc ->
+Lemma loop_ref_at (sid : id) : forall todo f s acc s' g,
+  recur_loop tk f s sid = (s', g) -> g <> GFuel ->
+  deeds (get_sched s sid) = map deed_of todo ++ DMark :: map deed_of acc ->
   Good s (todo ++ acc) ->
-  let '(q', o) := ref_pass D (tyme s) tk todo in
-  g = GReturn /\ deeds (get_sched s' 0%N) = map deed_of (acc ++ q') /\ Good s' (acc ++ q') /\
+  let '(q', o) := ref_pass D (tyme s) (stock sid) todo in
+  g = GReturn /\ deeds (get_sched s' sid) = map deed_of (acc ++ q') /\ Good s' (acc ++ q') /\
   recs s' = rev o ++ recs s /\ tyme s' = tyme s /\ get_done s' 0%N = get_done s 0%N /\
   trace s' = pass_evs D (tyme s) todo ++ trace s.
 Proof.
   induction todo as [|d todo IH]; intros f s acc s' g E NF Dq Gd.
   - cbn [ref_pass map app] in *.
     destruct f as [|f]; [rewrite recur_loop_O in E; inversion E; subst; congruence|].
-    rewrite (recur_loop_mark f s 0%N _ Dq) in E. inversion E; subst; clear E.
+    rewrite (recur_loop_mark f s sid _ Dq) in E. inversion E; subst; clear E.
     rewrite app_nil_r. split; [reflexivity|]. split; [apply deeds_set_deeds|].
     split; [eapply good_frame; [exact Gd|reflexivity|reflexivity]|]. repeat split; reflexivity.
   - cbn [ref_pass map app] in *.
@@ -385,22 +391,24 @@ Proof.
     destruct (quiet_def_inv _ Qi) as (k & sc & Dfi & Qsc & Sc).
     unfold ref_visit. destruct (tleb (r_due d) (tyme s)) eqn:Due.
     + (* due: one send *)
-      rewrite (recur_loop_due f s 0%N _ _ _ Dq Due) in E.
-      destruct (gen_send tk f (set_deeds s 0%N _) (r_id d)) as [s2 g2] eqn:Es.
+      rewrite (recur_loop_due f s sid _ _ _ Dq Due) in E.
+      destruct (gen_send tk f (set_deeds s sid _) (r_id d)) as [s2 g2] eqn:Es.
       assert (NF2 : g2 <> GFuel) by (intro; subst g2; inversion E; subst; congruence).
       assert (Dfs : get (defs s) (r_id d) = Some (FLeaf k sc)) by (rewrite Df; exact Dfi).
-      pose proof (quiet_send f (set_deeds s 0%N (map deed_of todo ++ DMark :: map deed_of acc)) (r_id d) (r_pc d) k sc s2 g2 Gi Dfs Qsc Es NF2) as QS.
+      pose proof (quiet_send f (set_deeds s sid (map deed_of todo ++ DMark :: map deed_of acc)) (r_id d) (r_pc d) k sc s2 g2 Gi Dfs Qsc Es NF2) as QS.
       cbv zeta in QS. unfold out_at. rewrite Sc.
       destruct (f_out (nth (r_pc d) sc default_step)) as [t|r| |] eqn:Eo; try contradiction.
       * (* yield: re-appended behind the marker with the new due tyme *)
         destruct QS as [-> ->].
-        set (d' := {| r_id := r_id d; r_due := next_due (tyme s) tk (r_due d) t; r_pc := S (r_pc d) |}).
+        set (d' := {| r_id := r_id d; r_due := next_due (tyme s) (stock sid) (r_due d) t; r_pc := S (r_pc d) |}).
+        match type of E with context [sched_tock tk ?x sid] =>
+          assert (Sk : sched_tock tk x sid = stock sid) by (apply sched_tock_D; exact Df); rewrite Sk in E; clear Sk end.
         match type of E with recur_loop tk f ?x _ = _ => set (s3 := x) in E end.
-        assert (Dq3 : deeds (get_sched s3 0%N) = map deed_of todo ++ DMark :: map deed_of (acc ++ [d'])).
+        assert (Dq3 : deeds (get_sched s3 sid) = map deed_of todo ++ DMark :: map deed_of (acc ++ [d'])).
         { unfold s3. rewrite deeds_set_deeds.
-          change (deeds (get_sched (set_gen (emit (set_gen (set_deeds s 0%N (map deed_of todo ++ DMark :: map deed_of acc))
-                     (r_id d) (GRun (r_pc d))) Recur (r_id d)) (r_id d) (GSusp (S (r_pc d)))) 0%N))
-            with (deeds (get_sched (set_deeds s 0%N (map deed_of todo ++ DMark :: map deed_of acc)) 0%N)).
+          change (deeds (get_sched (set_gen (emit (set_gen (set_deeds s sid (map deed_of todo ++ DMark :: map deed_of acc))
+                     (r_id d) (GRun (r_pc d))) Recur (r_id d)) (r_id d) (GSusp (S (r_pc d)))) sid))
+            with (deeds (get_sched (set_deeds s sid (map deed_of todo ++ DMark :: map deed_of acc)) sid)).
           rewrite deeds_set_deeds, map_app, <- app_assoc. reflexivity. }
         assert (G3 : Good s3 (todo ++ acc ++ [d'])).
         { split; [exact Df|]. split.
@@ -419,11 +427,9 @@ Proof.
         specialize (IH f s3 (acc ++ [d']) s' g E NF Dq3).
         specialize (IH G3).
         change (tyme s3) with (tyme s) in IH.
-        destruct (ref_pass D (tyme s) tk todo) as [b o'].
+        destruct (ref_pass D (tyme s) (stock sid) todo) as [b o'].
         destruct IH as (I1 & I2 & I3 & I4 & I5 & I6 & I7).
         split; [exact I1|]. rewrite <- app_assoc in I2, I3. cbn [app] in *.
-        assert (Sk : sched_tock tk (set_gen (emit (set_gen (set_deeds s 0%N (map deed_of todo ++ DMark :: map deed_of acc))
-                     (r_id d) (GRun (r_pc d))) Recur (r_id d)) (r_id d) (GSusp (S (r_pc d)))) 0%N = tk) by reflexivity.
         split; [exact I2|]. split; [exact I3|]. split.
         { rewrite I4. unfold recs at 1. unfold s3. cbn [trace set_deeds set_sched set_gen emit flat_map rec_of e_kind e_id e_tyme tyme app].
           cbn [rev]. rewrite <- app_assoc. reflexivity. }
@@ -432,9 +438,9 @@ Proof.
       * (* return: the doer leaves the deque *)
         destruct QS as [-> ->].
         match type of E with recur_loop tk f ?x _ = _ => set (s3 := x) in E end.
-        assert (Dq3 : deeds (get_sched s3 0%N) = map deed_of todo ++ DMark :: map deed_of acc).
+        assert (Dq3 : deeds (get_sched s3 sid) = map deed_of todo ++ DMark :: map deed_of acc).
         { unfold s3.
-          change (deeds (get_sched (set_deeds s 0%N (map deed_of todo ++ DMark :: map deed_of acc)) 0%N)
+          change (deeds (get_sched (set_deeds s sid (map deed_of todo ++ DMark :: map deed_of acc)) sid)
                   = map deed_of todo ++ DMark :: map deed_of acc).
           apply deeds_set_deeds. }
         assert (G3 : Good s3 (todo ++ acc)).
@@ -450,7 +456,7 @@ Proof.
           rewrite get_gen_other by exact Ne. exact A1. }
         specialize (IH f s3 acc s' g E NF Dq3 G3).
         change (tyme s3) with (tyme s) in IH.
-        destruct (ref_pass D (tyme s) tk todo) as [b o'].
+        destruct (ref_pass D (tyme s) (stock sid) todo) as [b o'].
         destruct IH as (I1 & I2 & I3 & I4 & I5 & I6 & I7).
         split; [exact I1|]. cbn [app]. split; [exact I2|]. split; [exact I3|]. split.
         { rewrite I4. unfold recs at 1. unfold s3. cbn [trace set_deeds set_sched set_gen set_done emit flat_map rec_of e_kind e_id e_tyme tyme app].
@@ -459,9 +465,9 @@ Proof.
         { rewrite I6. unfold s3. rewrite get_done_other by (intro X; apply Ni; now rewrite X). reflexivity. }
         rewrite I7. cbn [pass_evs]. unfold visit_evs, out_at. rewrite Due, Sc, Eo. rewrite <- app_assoc. reflexivity.
     + (* not due: re-appended unchanged *)
-      rewrite (recur_loop_notdue f s 0%N _ _ _ Dq Due) in E.
+      rewrite (recur_loop_notdue f s sid _ _ _ Dq Due) in E.
       match type of E with recur_loop tk f ?x _ = _ => set (s3 := x) in E end.
-      assert (Dq3 : deeds (get_sched s3 0%N) = map deed_of todo ++ DMark :: map deed_of (acc ++ [d])).
+      assert (Dq3 : deeds (get_sched s3 sid) = map deed_of todo ++ DMark :: map deed_of (acc ++ [d])).
       { unfold s3. rewrite deeds_set_deeds, map_app, <- app_assoc. reflexivity. }
       assert (G3 : Good s3 (todo ++ acc ++ [d])).
       { split; [exact Df|]. split.
@@ -471,7 +477,7 @@ Proof.
       specialize (IH f s3 (acc ++ [d]) s' g E NF Dq3).
       specialize (IH G3).
       change (tyme s3) with (tyme s) in IH.
-      destruct (ref_pass D (tyme s) tk todo) as [b o'].
+      destruct (ref_pass D (tyme s) (stock sid) todo) as [b o'].
       destruct IH as (I1 & I2 & I3 & I4 & I5 & I6 & I7).
       rewrite <- app_assoc in I2, I3. cbn [app] in *.
       split; [exact I1|]. split; [exact I2|]. split; [exact I3|]. split; [exact I4|].
@@ -480,11 +486,11 @@ Proof.
 Qed.
 
 (* one whole pass of the root *)
-Lemma pass_ref f s q s' g :
-  recur_pass tk f s 0%N = (s', g) -> g <> GFuel ->
-  deeds (get_sched s 0%N) = map deed_of q -> Good s q ->
-  let '(q', o) := ref_pass D (tyme s) tk q in
-  g = GReturn /\ deeds (get_sched s' 0%N) = map deed_of q' /\ Good s' q' /\
+Lemma pass_ref_at (sid : id) f s q s' g :
+  recur_pass tk f s sid = (s', g) -> g <> GFuel ->
+  deeds (get_sched s sid) = map deed_of q -> Good s q ->
+  let '(q', o) := ref_pass D (tyme s) (stock sid) q in
+  g = GReturn /\ deeds (get_sched s' sid) = map deed_of q' /\ Good s' q' /\
   recs s' = rev o ++ recs s /\ tyme s' = tyme s /\ get_done s' 0%N = get_done s 0%N /\
   trace s' = pass_evs D (tyme s) q ++ trace s.
 Proof.
@@ -492,14 +498,34 @@ Proof.
   destruct f as [|f]; [rewrite recur_pass_O in E; inversion E; subst; congruence|].
   rewrite recur_pass_S in E. cbv zeta in E.
   match type of E with recur_loop tk f ?x _ = _ => set (s1 := x) in E end.
-  assert (Dq1 : deeds (get_sched s1 0%N) = map deed_of q ++ DMark :: map deed_of []).
+  assert (Dq1 : deeds (get_sched s1 sid) = map deed_of q ++ DMark :: map deed_of []).
   { unfold s1. rewrite deeds_set_deeds, Dq. reflexivity. }
   assert (G1 : Good s1 (q ++ [])).
   { rewrite app_nil_r. eapply good_frame; [exact Gd|reflexivity|reflexivity]. }
-  pose proof (loop_ref q f s1 [] s' g E NF Dq1 G1) as L.
+  pose proof (loop_ref_at sid q f s1 [] s' g E NF Dq1 G1) as L.
   change (tyme s1) with (tyme s) in L.
-  destruct (ref_pass D (tyme s) tk q) as [q' o]. exact L.
+  destruct (ref_pass D (tyme s) (stock sid) q) as [q' o]. exact L.
 Qed.
+
+(* the root scheduler *)
+Lemma loop_ref : forall todo f s acc s' g,
+  recur_loop tk f s 0%N = (s', g) -> g <> GFuel ->
+  deeds (get_sched s 0%N) = map deed_of todo ++ DMark :: map deed_of acc ->
+  Good s (todo ++ acc) ->
+  let '(q', o) := ref_pass D (tyme s) tk todo in
+  g = GReturn /\ deeds (get_sched s' 0%N) = map deed_of (acc ++ q') /\ Good s' (acc ++ q') /\
+  recs s' = rev o ++ recs s /\ tyme s' = tyme s /\ get_done s' 0%N = get_done s 0%N /\
+  trace s' = pass_evs D (tyme s) todo ++ trace s.
+Proof. exact (loop_ref_at 0%N). Qed.
+
+Lemma pass_ref f s q s' g :
+  recur_pass tk f s 0%N = (s', g) -> g <> GFuel ->
+  deeds (get_sched s 0%N) = map deed_of q -> Good s q ->
+  let '(q', o) := ref_pass D (tyme s) tk q in
+  g = GReturn /\ deeds (get_sched s' 0%N) = map deed_of q' /\ Good s' q' /\
+  recs s' = rev o ++ recs s /\ tyme s' = tyme s /\ get_done s' 0%N = get_done s 0%N /\
+  trace s' = pass_evs D (tyme s) q ++ trace s.
+Proof. exact (pass_ref_at 0%N f s q s' g). Qed.
 
 (* enter of the root over fresh quiet leaves *)
 Lemma enter_ref : forall ids f s q s' g,
